@@ -14,7 +14,7 @@ demo=$(ls "$src"/*_test.go 2>/dev/null | head -1)
 res_with=NA; res_without=NA; tests=NA
 if [ -n "$demo" ]; then
   cp "$demo" "$wt/$pkg/"
-  tname=$(grep -o 'func Test[A-Za-z0-9_]*' "$demo" | head -1 | sed 's/func //')
+  tname="($(grep -o 'func Test[A-Za-z0-9_]*' "$demo" | sed 's/func //' | paste -sd'|'))"
   (cd "$wt" && go test -vet=off -count=1 -run "^$tname\$" "$pkg" >/tmp/sv/$name.without.log 2>&1); res_without=$?
   (cd "$wt" && git apply "$dst/patch.diff") || { echo "patch does not apply"; exit 1; }
   (cd "$wt" && go build ./... ) || { echo "does not build"; exit 1; }
